@@ -14,7 +14,10 @@ static ESL_KEYHASH *KH, *KH2;
 static int RBEXP;   /* tree keys are ldexp(k, RBEXP): a monotone injective map of the protocol's integers into the doubles */
 static ESL_HEAP *HP;
 static ESL_RED_BLACK_DOUBLEKEY *RB;
-static ESL_STACK *ST; static char STYPE = 'i';
+/* pool mode: nodes come from esl_red_black_doublekey_pool_Create() blocks (linked through <large>), never freed one by one */
+#define H_MAXPOOLS 4096
+static ESL_RED_BLACK_DOUBLEKEY *RBPOOLS[H_MAXPOOLS], *RBPOOLNEXT; static int RBNPOOLS, RBPOOLSIZE;
+static ESL_STACK *ST; static char STYPE = 'i'; static int STCOND;   /* STCOND: a condition variable is active: Pop on an empty stack would wait */
 
 /* ---- watchdog: a broken implementation may loop for ever (e.g. a cyclic hash chain) or become pathologically slow
  * (e.g. an allocation that doubles at every call). Each case gets a time limit: the process then dies, the engine reports
@@ -69,14 +72,15 @@ static void h_watchdog_end(void)
 static uint64_t fnv(uint64_t h, uint64_t x) { return (h ^ x) * 0x100000001b3ULL; }
 #define FNV0 0xcbf29ce484222325ULL
 
-static void h_case_begin(void) { h_watchdog_begin(); RBEXP = 0; KH2 = NULL; KH = NULL; HP = NULL; RB = NULL; ST = NULL; if (h_skip_case) return; KH = esl_keyhash_Create(); HP = esl_heap_ICreate(eslHEAP_MIN); RB = NULL; ST = esl_stack_ICreate(); STYPE = 'i'; }
+static void rb_teardown(void);
+static void h_case_begin(void) { h_watchdog_begin(); RBEXP = 0; KH2 = NULL; KH = NULL; HP = NULL; RB = NULL; ST = NULL; if (h_skip_case) return; KH = esl_keyhash_Create(); HP = esl_heap_ICreate(eslHEAP_MIN); RB = NULL; ST = esl_stack_ICreate(); STYPE = 'i'; STCOND = 0; }
 static void h_case_end(void)
 {
   h_watchdog_end();
   if (KH) esl_keyhash_Destroy(KH); KH = NULL;
   if (KH2) esl_keyhash_Destroy(KH2); KH2 = NULL;
   if (HP) esl_heap_Destroy(HP); HP = NULL;
-  if (RB) esl_red_black_doublekey_Destroy(RB); RB = NULL;
+  rb_teardown(); RBPOOLSIZE = 0;
   if (ST) esl_stack_Destroy(ST); ST = NULL;
 }
 
@@ -128,6 +132,27 @@ static uint64_t rb_hash(ESL_RED_BLACK_DOUBLEKEY *t, uint64_t h, int *n)
   return rb_hash(t->large, h, n);
 }
 static int rb_count(ESL_RED_BLACK_DOUBLEKEY *t) { return t ? 1 + rb_count(t->small) + rb_count(t->large) : 0; }
+
+static void rb_free_contents(ESL_RED_BLACK_DOUBLEKEY *t) { if (t) { rb_free_contents(t->small); rb_free_contents(t->large); free(t->contents); t->contents = NULL; } }
+static void rb_teardown(void)
+{
+  int i;
+  if (RBPOOLSIZE > 0) { rb_free_contents(RB); for (i = 0; i < RBNPOOLS; i++) free(RBPOOLS[i]); RBNPOOLS = 0; RBPOOLNEXT = NULL; }
+  else if (RB) esl_red_black_doublekey_Destroy(RB);
+  RB = NULL;
+}
+static ESL_RED_BLACK_DOUBLEKEY *rb_newnode(void)
+{
+  ESL_RED_BLACK_DOUBLEKEY *n;
+  if (RBPOOLSIZE <= 0) return esl_red_black_doublekey_Create();
+  if (RBPOOLNEXT == NULL) {
+    if (RBNPOOLS == H_MAXPOOLS) return NULL;
+    RBPOOLNEXT = RBPOOLS[RBNPOOLS++] = esl_red_black_doublekey_pool_Create(RBPOOLSIZE);
+    if (RBPOOLNEXT == NULL) return NULL;
+  }
+  n = RBPOOLNEXT; RBPOOLNEXT = n->large;     /* take the head of the free list */
+  return n;
+}
 
 /* ---- stack helpers */
 struct dparam { const char *mode; long long p; };
@@ -260,16 +285,18 @@ static void h_op(void)
   }
   /* ------------------------------------------------ red-black tree */
   else if (!strcmp(op, "rb_new")) {
-    if (RB) esl_red_black_doublekey_Destroy(RB);
-    RB = NULL; RBEXP = (int) h_argi("exp", 0); h_out("ok");
+    rb_teardown();
+    RBEXP = (int) h_argi("exp", 0); RBPOOLSIZE = (int) h_argi("pool", 0); h_out("ok");
   } else if (!strcmp(op, "rb_ins")) {
     long long *v; int n = parse_ints(h_arg("k"), &v), i; ob_reset();
     for (i = 0; i < n; i++) {
-      ESL_RED_BLACK_DOUBLEKEY *node = esl_red_black_doublekey_Create(), *t;
+      ESL_RED_BLACK_DOUBLEKEY *node = rb_newnode(), *t;
       int64_t *c = malloc(sizeof(int64_t)); *c = v[i];
+      if (node == NULL) { free(c); ob_add("E"); continue; }
+      if (node->contents != NULL || node->parent != NULL || node->small != NULL) ob_add("U");   /* constructor left a field set */
       node->contents = c; node->key = ldexp((double) v[i], RBEXP);
       t = esl_red_black_doublekey_insert(RB, node);
-      if (t == NULL) { free(c); free(node); ob_add("d"); }
+      if (t == NULL) { free(c); node->contents = NULL; if (RBPOOLSIZE <= 0) free(node); else { node->large = RBPOOLNEXT; RBPOOLNEXT = node; } ob_add("d"); }
       else { RB = t; ob_add("i"); }
     }
     free(v);
@@ -306,7 +333,8 @@ static void h_op(void)
     if (k == 0) ob_add("-");
     if (k > total) ob_add(",cycle");
     h_out("%s", OB);
-    esl_red_black_doublekey_linked_list_Destroy(head, tail);
+    if (RBPOOLSIZE > 0) { for (p = head, k = 0; p != NULL && k <= total; p = p->small, k++) { free(p->contents); p->contents = NULL; } RB = NULL; rb_teardown(); }
+    else esl_red_black_doublekey_linked_list_Destroy(head, tail);
     RB = NULL;
   }
   /* ------------------------------------------------ stacks */
@@ -315,7 +343,23 @@ static void h_op(void)
     if (ST) esl_stack_Destroy(ST);
     STYPE = t ? t[0] : 'i';
     ST = STYPE == 'i' ? esl_stack_ICreate() : (STYPE == 'c' ? esl_stack_CCreate() : esl_stack_PCreate());
-    h_out(ST ? "ok" : "emem");
+    STCOND = 0;
+    if (!ST) { h_out("emem"); return; }
+#ifdef HAVE_PTHREAD
+    /* the thread-communication mode used single-threaded: every operation takes and must release the mutex
+     * (a forgotten unlock blocks the next operation: caught by the watchdog), pushes signal the condition */
+    if (h_argi("mutex", 0)) { int st = esl_stack_UseMutex(ST); if (st != eslOK) { h_out("%s", h_status(st)); return; } }
+    if (h_argi("cond", 0))  { int st = esl_stack_UseCond(ST);  if (st != eslOK) { h_out("%s", h_status(st)); return; } STCOND = 1; }
+#endif
+    h_out("ok");
+  } else if (!strcmp(op, "st_release")) {
+#ifdef HAVE_PTHREAD
+    int st = ST ? esl_stack_ReleaseCond(ST) : eslESYS;
+    if (st == eslOK) STCOND = 0;
+    h_out("%s", h_status(st));
+#else
+    h_out("ok");
+#endif
   } else if (ST == NULL && (!strcmp(op, "push") || !strcmp(op, "pop") || !strcmp(op, "popall") || !strcmp(op, "count") || !strcmp(op, "st_reuse")
                             || !strcmp(op, "st_dump") || !strcmp(op, "discardtop") || !strcmp(op, "discardsel") || !strcmp(op, "shuffle") || !strcmp(op, "tostring"))) {
     h_out("bad-op");
@@ -325,11 +369,13 @@ static void h_op(void)
     free(v);
     if (st == eslOK) h_out("ok %d", esl_stack_ObjectCount(ST)); else h_out("%s", h_status(st));
   } else if (!strcmp(op, "pop")) {
-    long long v; int st = st_pop(&v);
+    long long v; int st;
+    if (STCOND && esl_stack_ObjectCount(ST) == 0) { h_out("bad-op"); return; }   /* would wait for a pusher for ever */
+    st = st_pop(&v);
     h_out("%s %lld", h_status(st), v);
   } else if (!strcmp(op, "popall")) {
     long long v; int first = 1; ob_reset();
-    while (st_pop(&v) == eslOK) { ob_int(v, first); first = 0; }
+    while (esl_stack_ObjectCount(ST) > 0 && st_pop(&v) == eslOK) { ob_int(v, first); first = 0; }
     h_out("ok %s", first ? "-" : OB);
   } else if (!strcmp(op, "count")) {
     h_out("ok %d", esl_stack_ObjectCount(ST));
@@ -359,7 +405,7 @@ static void h_op(void)
     if (!str) { h_out("emem"); return; }
     h_out("ok %s", h_hex(str, (int64_t) strlen(str)));
     free(str);
-    ST = esl_stack_ICreate(); STYPE = 'i';
+    ST = esl_stack_ICreate(); STYPE = 'i'; STCOND = 0;
   }
   /* ------------------------------------------------ quicksort */
   else if (!strcmp(op, "qsort")) {
